@@ -14,8 +14,8 @@ def run(ctx):
     # single frame x every split into <= 3 (thorough: 4) reads; the round-trip / prefix lemmas are checked by the same run
     scripts = ctx.tlc_gen("MC_Resp", R.mc(2, 2, 3 if q else 4, univ=QUICK if q else R.ALL, lemmas=True), "cover", timeout=2400)
     if not q:
-        # every pair x every split into <= 3 reads, every triple of a smaller universe x <= 2 reads
-        scripts += ctx.tlc_gen("MC_Resp", R.mc(2, 3), "pairs-3chunks", timeout=2400)
+        # every pair (12-frame universe) x every split into <= 3 reads, every triple of a smaller universe x <= 2 reads
+        scripts += ctx.tlc_gen("MC_Resp", R.mc(2, 3, univ=QUICK), "pairs-3chunks", timeout=2400)
         scripts += ctx.tlc_gen("MC_Resp", R.mc(3, 2, univ="{1,3,4,7,12,15}"), "triples-2chunks", timeout=2400)
     # random larger streams: <= 6 frames, <= 6 reads
     scripts += ctx.tlc_gen("MC_Resp", R.mc(6, 6, emit="", inv="SimEmit " + R.DESIGN_INV), "walks", simulate=(100 if q else 3000, 40))
